@@ -46,7 +46,7 @@ type cliFileSpec struct {
 
 func cliContent(cls, tag string) string {
 	switch cls {
-	case "xml", "noext":
+	case "xml", "noext", "linkxml", "stdinxml":
 		return `<?xml version="1.0"?>` + "\n" + `<r><a>` + tag + `-1</a><b><a x="1" n:y="2" xmlns:n="urn:n">` + tag + `-2<!--c ` + tag + `--><?p d?><i>x &amp; y</i></a></b><n:a xmlns:n="urn:n">` + tag + `-3</n:a></r>`
 	case "xmlbad":
 		return `<r><a>` + tag + `</r>`
@@ -227,6 +227,7 @@ func cliCase(line string, rep *Report, fnd *Findings) {
 	os.MkdirAll(dir, 0o755)
 	defer os.RemoveAll(dir)
 	paths := make([]string, len(gl.Tree))
+	stdin := ""
 	for i, e := range gl.Tree {
 		p := e.Name
 		if e.In > 0 {
@@ -239,6 +240,14 @@ func cliCase(line string, rep *Report, fnd *Findings) {
 			os.MkdirAll(full, 0o755)
 		case "dangling":
 			os.Symlink(filepath.Join(dir, "does-not-exist"), full)
+		case "linkxml":
+			// a symbolic link to a regular file kept outside the argument tree
+			target := filepath.Join(work, fmt.Sprintf("t%016x-%d.xml", h, i))
+			os.WriteFile(target, []byte(cliContent(e.Cls, strings.ToUpper(strings.ReplaceAll(e.Name, ".", "_")))), 0o644)
+			defer os.Remove(target)
+			os.Symlink(target, full)
+		case "stdinxml":
+			stdin = cliContent(e.Cls, "STDIN")
 		default:
 			os.WriteFile(full, []byte(cliContent(e.Cls, strings.ToUpper(strings.ReplaceAll(e.Name, ".", "_")))), 0o644)
 		}
@@ -276,6 +285,7 @@ func cliCase(line string, rep *Report, fnd *Findings) {
 	cmd.Dir = dir
 	var so, se bytes.Buffer
 	cmd.Stdout, cmd.Stderr = &so, &se
+	cmd.Stdin = strings.NewReader(stdin)
 	err := cmd.Run()
 	text := "xsel " + strings.Join(args, " ")
 	fail := func(aspect, detail string) {
@@ -304,13 +314,20 @@ func cliCase(line string, rep *Report, fnd *Findings) {
 			undetermined = append(undetermined, prefix)
 			continue
 		}
-		if sp.Diag && !strings.Contains(se.String(), paths[i]) {
+		diagKey := paths[i]
+		if e.Cls == "stdinxml" {
+			diagKey = "stdin"
+		}
+		if sp.Diag && !strings.Contains(se.String(), diagKey) {
 			fail("diag", "no diagnostic on stderr for "+paths[i]+" ("+e.Cls+")")
 		}
 		var want []string
 		var wantNodes []xsel.Cursor
 		if sp.Records != "none" {
 			data, _ := os.ReadFile(filepath.Join(dir, paths[i]))
+			if e.Cls == "stdinxml" {
+				data = []byte(stdin)
+			}
 			var cur xsel.Cursor
 			var rerr error
 			switch sp.Parse {
